@@ -1,11 +1,13 @@
 (* C17 - property theorems only.  Each is closed by [exact lemma]; Print Assumptions beneath.
    Model.C17 transcribes fill_range / trim_rangelist / range_contains_overlap / _merge_overlapping_ranges /
    merge_overlapping_ranges / blacklisted_binning (bamBinCounts.py, with fixes C17-D21 and C17-D23) and
-   bp_chunked (utils/binning.py).  Shapes (chain, ordered, dchain, sdisj, covers, inside) are in Lib.Tiling;
+   bp_chunked (utils/binning.py); the comparisons / clip / merge / step expressions, call arguments and the sentinel inside the
+   model are the g_* definitions REGENERATED from the source on every run (Gen/GenTiling.v); Proofs.C17_shape connects them to
+   the arithmetic the proofs use, so these theorems are re-proved about what the source says now.  Shapes (chain, ordered, dchain, sdisj, covers, inside) are in Lib.Tiling;
    [spec] and [window_ok] are defined at the top of Proofs.C17. *)
 From Coq Require Import ZArith List Bool.
 Import ListNotations.
-From SCMO Require Import Lib.Tiling Lib.TilingFacts Model.C17 Proofs.C17.
+From SCMO Require Import Lib.Tiling Lib.TilingFacts Gen.GenTiling Model.C17 Proofs.C17_shape Proofs.C17.
 Open Scope Z_scope.
 
 (* fill_range(s, e, step) with step > 0: consecutive non-empty pieces from s to e, each at most step long,
